@@ -10,6 +10,7 @@ Case (JSON-able):
   regs : [[port, pmask, chan, cmask, cb], ...]   initial port/header registrations, in order
   alls : [cb, ...]                               initial `packet_received` callbacks, in order
   pkts : [header byte, ...]
+  plens: optional [payload length, ...] parallel to pkts (default 2 bytes each)
   beh  : {str(cb): [[op, ...], ...]}             op = ['addh'|'remh', port, pmask, chan, cmask, cb, via]
                                                     | ['addall'|'remall', cb] | ['raise']
          via = 'hdr' (all five arguments given), 'def' (masks left to their 0xFF defaults),
@@ -83,8 +84,12 @@ class Run:
         self.ncalls = 0
         self.pk_index = {}
         self.pkts = []
+        plens = case.get('plens')
         for n, h in enumerate(case['pkts']):
-            pk = CRTPPacket(h, [n & 0xFF, (n >> 8) & 0xFF])
+            # a real CRTPPacket built from the raw header byte, as the link drivers do; payload length 2 unless the case
+            # says otherwise (0 = empty payload ... 30 = full); packets are told apart by object identity
+            k = 2 if plens is None else plens[n]
+            pk = CRTPPacket(h, ([n & 0xFF, (n >> 8) & 0xFF] + [0xA5] * 30)[:k])
             self.pkts.append(pk)
             self.pk_index[id(pk)] = n
         self.cur = -1
@@ -131,7 +136,7 @@ class Run:
         n = self.pk_index.get(id(pk), -1)
         self.log.append((c, n))
         self.ncalls += 1
-        if self.ncalls > MAX_CALLS:
+        if self.ncalls > MAX_CALLS + 40 * len(self.pkts):
             self.diverged = True
             raise _Stop()
         k = self.calls.get(c, 0)
